@@ -44,7 +44,10 @@ SIDECAR_FAULTS = {"sidecar-socket": ("socket", ".abstract"), "sidecar-dir": ("di
                   "dirsidecar-dir": ("dir", "/.3d"),
                   # the same for the UMN per-file metadata file .cap/<name>
                   "capfile-fifo": ("fifo", "cap:"), "capfile-socket": ("socket", "cap:"), "capfile-dir": ("dir", "cap:"),
-                  "capfile-loop": ("symlink-loop", "cap:")}
+                  "capfile-loop": ("symlink-loop", "cap:"),
+                  # something that is no regular file but is called like the file that turns a directory into a gophermap menu
+                  "gophermap-socket": ("socket", "map:"), "gophermap-fifo": ("fifo", "map:"), "gophermap-dir": ("dir", "map:"),
+                  "gophermap-loop": ("symlink-loop", "map:"), "gophermap-dangling": ("dangling", "map:")}
 # names that one of the handlers claims by pattern: appended to the faulty entry's name
 SUFFIXES = ["", ".gophermap", ".zip", ".mbox", ".pyg", ".html", ".html.tal", ".txt.gz"]
 INJECTED = ["vanished-after-enumeration", "stat-ENOENT", "stat-EACCES", "vanishes-after-stat", "open-EACCES", "open-EIO"]
@@ -76,6 +79,11 @@ def add_fault(t: Tree, kind: str, pos_name: str, suffix: str = "", healthy: typi
         name = owner + ext
         if ext == "cap:":
             name = ".cap/" + owner
+        if ext == "map:":
+            name = "gophermap"
+        if what == "dangling":
+            t.symlink(name, "no-such-target")
+            return name
         if what == "dir":
             t.file(name + "/inside.txt", "x\n")
         elif what == "symlink-loop":
@@ -277,12 +285,14 @@ def main() -> int:
     positions = ["", "c", "m", "zz"]      # sorts first, early, middle, last among the healthy names
     idx = 0
     with Scratch("c12") as sc:
-        for hl_name, hl in (("umn", None), ("plain", driver.HANDLERS_PLAINDIR), ("full", driver.HANDLERS_FULL)):
+        for hl_name, hl in (("umn", None), ("plain", driver.HANDLERS_PLAINDIR), ("full", driver.HANDLERS_FULL),
+                           ("full+rewriter", driver.HANDLERS_FULL_REWRITE)):
             # singles: every fault kind x every position x directory sizes
             for kind in kinds:
                 for pos in positions:
                     for nh in ([1, 4, 8] if not quick else [1, 5]):
-                        depth = b"" if (idx % 3) else b"sub/dir"
+                        # (one-character directory names: '/d/x' has the shape of a type-prefixed selector)
+                        depth = [b"", b"sub/dir", b"d", b"", b"1", b"sub/dir"][idx % 6]
                         modes = [None]
                         if hl_name == "umn":
                             modes = [None, "hide", "rename", "number"]
